@@ -1,4 +1,5 @@
 import PexpectModel.Session
+import PexpectModel.SessionFaults
 import PexpectModel.Drv.Common
 /-! driver: `SS <b|u8|l1> <linesep> <eofByte> <intrByte> <op>…`  (ops of the expect()-side API and `X=` chunks copied by interact()) -/
 namespace Drv.SessionD
@@ -44,6 +45,26 @@ def handle (toks : List String) : String :=
       let cfg : Cfg := ⟨decList ls, e, i⟩
       if mode == "u8" then showSt (run2 utf8 (mapEnc utf8Encode) cfg (Sess.init utf8 (mapEnc utf8Encode)) ops)
       else showSt (run2 latin1 (mapEnc (fun c => [c])) cfg (Sess.init latin1 (mapEnc (fun c => [c]))) ops)
+    | _, _, _ => "bad-op"
+  | _ => "bad-op"
+
+/-- `Sr=<h>` / `Lr=<h>`: send / sendline whose write is refused; `Ss=<k>=<h>` / `Ls=<k>=<h>`: the write takes k bytes -/
+def parseOpF (s : String) : Option (Op × WFault) :=
+  match s.splitOn "=" with
+  | ["Sr", h] => some (.send (decList h), .refuse)
+  | ["Lr", h] => some (.sendline (decList h), .refuse)
+  | ["Ss", k, h] => k.toNat?.map fun k => (.send (decList h), .short k)
+  | ["Ls", k, h] => k.toNat?.map fun k => (.sendline (decList h), .short k)
+  | _ => (parseOp1 s).map fun o => (o, .ok)
+
+def handleF (toks : List String) : String :=
+  match toks with
+  | mode :: ls :: e :: i :: ops =>
+    match e.toNat?, i.toNat?, ops.mapM parseOpF with
+    | some e, some i, some ops =>
+      let cfg : Cfg := ⟨decList ls, e, i⟩
+      if mode == "u8" then showSt (runF utf8 (mapEnc utf8Encode) cfg (Sess.init utf8 (mapEnc utf8Encode)) ops)
+      else showSt (runF latin1 (mapEnc (fun c => [c])) cfg (Sess.init latin1 (mapEnc (fun c => [c]))) ops)
     | _, _, _ => "bad-op"
   | _ => "bad-op"
 
